@@ -8,6 +8,18 @@ use std::sync::OnceLock;
 static KNOWN: OnceLock<KnownFindings> = OnceLock::new();
 static HOOK: OnceLock<()> = OnceLock::new();
 
+/// Run the body of a fuzz target; a panic of the harness itself (decoder, oracle) is
+/// reported as such (it is not a verdict about the code under test).
+pub fn guarded(f: impl FnOnce()) {
+    HOOK.get_or_init(|| {
+        engine::install_silent_panic_hook();
+    });
+    if let Err(m) = engine::catch(f) {
+        eprintln!("FUZZ-HARNESS-PANIC (not a violation): {m}");
+        std::process::abort();
+    }
+}
+
 pub fn eval<P: Prop>(prop: &P, case: &P::Case) {
     HOOK.get_or_init(|| {
         // panics inside the library under test are observed with catch_unwind by the
@@ -65,9 +77,9 @@ impl<'a> Bytes<'a> {
             0 => raw,
             1 => raw >> 64,
             2 => raw >> 100,
-            3 => MAXC - (raw & 0xff),
+            3 => MAXC - (raw & 0xff).abs(),
             4 => 10i128.pow((raw as u32) % 39) + ((raw >> 40) & 7) - 3,
-            _ => (MAXC / 10i128.pow((raw as u32) % 39)) + ((raw >> 40) & 7) - 3,
+            _ => (MAXC / 10i128.pow((raw as u32) % 39)).saturating_add(((raw >> 40) & 7) - 3),
         };
         let v = if sel & 0x80 != 0 { v.wrapping_neg() } else { v };
         if v == i128::MIN {
